@@ -1,4 +1,6 @@
 import CsVerif.Model.C02
+import CsVerif.Model.C02Gen
+import CsVerif.Model.PyUShow
 /-! Line-protocol driver for the C02 model.
 
 ops:
@@ -10,6 +12,15 @@ ops:
                                     op ids: 0-3 raw_settings, raw_settings_by_index, settings, settings_by_index;
                                     4-15 settings_map (name,const,enum)×(pretty F,T)×(parse F,T); 16 setting_enums;
                                     17 max_setting_enum; 18 settings_tuple; followed by the state of the four cache attributes
+* `gparse` / `gviews` / `greal` / `ghist` → the same cases answered by the definitions TRANSLATED from the source of `iter_settings`,
+                                    `BeaconConfig.__init__`, `settings_map`, `setting_enums`, `max_setting_enum` and the four view
+                                    properties (Gen/PyBeaconCfg.lean; calling a pretty function = the tagging stub), rendered from
+                                    `PyU.V` in the same formats (`ghist`: the per-instance cache is not translated — every access is
+                                    answered by the uncached definition, the cache line is left out); a value of an unexpected
+                                    shape is rendered `?…`
+* `gis <fobj>`                    → translated `iter_settings(fobj)` for an argument of any kind (notation of Model/PyUShow.lean)
+* `gsm x<block> l<raising> <index_type> <pretty> <parse>` → translated `settings_map` for arguments of any kind
+* `pyu <op> <operands>`           → one operation of `Model/PyU_T02.lean` on operands in the notation of Model/PyUShow.lean
 -/
 namespace C02
 open Proto
@@ -85,6 +96,188 @@ def showHistory (raising : List Nat) (ss : List Setting) (ops : List Op) : Strin
   " || ".intercalate (r.1.map showAnswer) ++
     s!" || cache {showSlot c.rawSettings}{showSlot c.rawSettingsByIndex}{showSlot c.settings}{showSlot c.settingsByIndex}"
 
+/-! ### `g-*` streams: the translated definitions -/
+section Gen
+open PyU (V)
+open Gen.PyBeaconCfg
+
+def gFuel (d : Bytes) : Nat := d.length + 1
+
+def vSetting? : V → Option Setting
+  | .inst c [.enum ci i, .enum ct t, .int l, .bytes v] =>
+    if c == SettingCls && ct == SettingsType && 0 ≤ i && 0 ≤ t && 0 ≤ l then
+      if ci == BeaconSetting then some { index := i.toNat, type := t.toNat, length := l.toNat, value := v }
+      else if ci == DeprecatedBeaconSetting then some { index := i.toNat, type := t.toNat, length := l.toNat, value := v, deprecated := true }
+      else none
+    else none
+  | _ => none
+
+def vKey? : V → Option Key
+  | .str cs => some (.name (cs.map UInt8.ofNat))
+  | .int n => if 0 ≤ n then some (.const n.toNat) else none
+  | .enum c n =>
+    if 0 ≤ n then
+      if c == BeaconSetting then some (.enum false n.toNat)
+      else if c == DeprecatedBeaconSetting then some (.enum true n.toNat) else none
+    else none
+  | _ => none
+
+def vVal? : V → Option Val
+  | .int n => if 0 ≤ n then some (.int n.toNat) else none
+  | .bytes b => some (.bytes b)
+  | .inst c [.int t, .int n] => if c == C02Gen.OpaqueCls && 0 ≤ t && 0 ≤ n then some (.opaque t.toNat (.int n.toNat)) else none
+  | .inst c [.int t, .bytes b] => if c == C02Gen.OpaqueCls && 0 ≤ t then some (.opaque t.toNat (.bytes b)) else none
+  | _ => none
+
+def vMap? : V → Option (List (Key × Val))
+  | .dict ks vs =>
+    if ks.length == vs.length then (ks.zip vs).mapM fun kv => do
+      let k ← vKey? kv.1
+      let v ← vVal? kv.2
+      pure (k, v)
+    else none
+  | _ => none
+
+def gShowMap (mask : Bool) : Py V → String
+  | .error e => "exc " ++ e.name
+  | .ok v =>
+    match vMap? v with
+    | some m => showMap mask (.ok m)
+    | none => "?map"
+
+def vNats? : V → Option (List Nat)
+  | .list xs => xs.mapM fun x => match x with | .int n => if 0 ≤ n then some n.toNat else none | _ => none
+  | _ => none
+
+def gSettings? (cfg : V) : Option (List Setting) :=
+  match PyU.getAttr cfg "settings_tuple" with
+  | .ok (.tuple xs) => xs.mapM vSetting?
+  | _ => none
+
+def gEnums (cfg : V) : String :=
+  match setting_enums cfg with
+  | .ok v => (match vNats? v with | some l => showNats l | none => "?enums")
+  | .error e => "exc " ++ e.name
+
+def gMax (cfg : V) : String :=
+  match max_setting_enum cfg with
+  | .ok (.int n) => toString n
+  | .ok _ => "?max"
+  | .error e => "exc " ++ e.name
+
+def gParsed (cfg : V) : String :=
+  match gSettings? cfg with
+  | some ss => s!"ok {ss.length} {" ".intercalate (ss.map showSetting)} | enums {gEnums cfg} | max {gMax cfg}"
+  | none => "?config"
+
+def gAllMaps (mask : Bool) (raising : List Nat) (cfg : V) : String :=
+  let cv := C02Gen.callX (stub raising)
+  let its : List V := [PyU.lit "name", PyU.lit "const", PyU.lit "enum"]
+  let combos : List String :=
+    its.flatMap fun it =>
+      [false, true].flatMap fun pretty =>
+        [false, true].map fun parse =>
+          gShowMap mask (settings_map cv cfg it (.bool pretty) (.bool parse))
+  let views := [gShowMap mask (raw_settings cv cfg), gShowMap mask (raw_settings_by_index cv cfg),
+                gShowMap mask (Gen.PyBeaconCfg.settings cv cfg), gShowMap mask (settings_by_index cv cfg)]
+  " | ".intercalate (combos ++ views)
+
+def gAnswer (raising : List Nat) (cfg : V) (n : Nat) : String :=
+  let cv := C02Gen.callX (stub raising)
+  match n with
+  | 0 => gShowMap false (raw_settings cv cfg)
+  | 1 => gShowMap false (raw_settings_by_index cv cfg)
+  | 2 => gShowMap false (Gen.PyBeaconCfg.settings cv cfg)
+  | 3 => gShowMap false (settings_by_index cv cfg)
+  | 16 => "enums " ++ gEnums cfg
+  | 17 => "max " ++ gMax cfg
+  | 18 =>
+    match gSettings? cfg with
+    | some ss => s!"tuple {ss.length} {" ".intercalate (ss.map showSetting)}"
+    | none => "?config"
+  | n =>
+    let k := n - 4
+    let it : V := if k / 4 = 0 then PyU.lit "name" else if k / 4 = 1 then PyU.lit "const" else PyU.lit "enum"
+    gShowMap false (settings_map cv cfg it (.bool (k / 2 % 2 = 1)) (.bool (k % 2 = 1)))
+
+def enumOf (cid : Nat) : Option PyU.EnumCls := [BeaconSetting, SettingsType, DeprecatedBeaconSetting].find? (·.cid == cid)
+def clsOf (cid : Nat) : Option PyU.Cls := [SettingCls, PrettyFn, BeaconConfig, C02Gen.OpaqueCls].find? (·.cid == cid)
+def vTok (s : String) : Option V := PyU.vTok enumOf clsOf s
+
+def strOf? : V → Option String
+  | .str cs => some (String.ofList (cs.map Char.ofNat))
+  | _ => none
+
+def fuelOf : V → Nat
+  | .bytes d => d.length + 1
+  | .bytesIO d _ => d.length + 1
+  | _ => 1
+
+open PyU in
+def pyuStep : List String → String
+  | [op, a] =>
+    match vTok a with
+    | none => "bad-op"
+    | some a =>
+      match op with
+      | "structread" => showPy (fun r => vShow (.tuple [r.1, r.2])) (structRead Gen.PyBeaconCfg.Setting a)
+      | "strof" => showPy vShow (PyU.strOf enumNames a)
+      | "tupleof" => showPy vShow (tupleOf a)
+      | "mappingproxy" => showPy vShow (mappingProxy a)
+      | "maxof" => showPy vShow (maxOf a)
+      | _ => "bad-op"
+  | [op, a, b, c] =>
+    match vTok a, vTok b, vTok c with
+    | some a, some b, some c =>
+      match op with
+      | "seek" => showPy (fun r => vShow (.tuple [r.1, r.2])) (bioSeek a b c)
+      | "strreplace" => showPy vShow (strReplace a b c)
+      | "setattr" =>
+        match strOf? b with
+        | some n => showPy vShow (instSetAttr a n c)
+        | none => "bad-op"
+      | _ => "bad-op"
+    | _, _, _ => "bad-op"
+  | _ => "bad-op"
+
+def gstep : List String → String
+  | ["gparse", d] =>
+    match bytesTok d with
+    | some d => (match beacon_config_init (gFuel d) (.bytes d) with | .ok cfg => gParsed cfg | .error e => "exc " ++ e.name)
+    | none => "bad-op"
+  | ["gviews", d, r] =>
+    match bytesTok d, natsTok r with
+    | some d, some r => (match beacon_config_init (gFuel d) (.bytes d) with | .ok cfg => gAllMaps false r cfg | .error e => "exc " ++ e.name)
+    | _, _ => "bad-op"
+  | ["greal", d] =>
+    match bytesTok d with
+    | some d => (match beacon_config_init (gFuel d) (.bytes d) with | .ok cfg => gAllMaps true [] cfg | .error e => "exc " ++ e.name)
+    | none => "bad-op"
+  | ["ghist", d, r, o] =>
+    match bytesTok d, natsTok r, natsTok o with
+    | some d, some r, some o =>
+      if o.all (· < 19) then
+        match beacon_config_init (gFuel d) (.bytes d) with
+        | .ok cfg => " || ".intercalate (o.map (gAnswer r cfg))
+        | .error e => "exc " ++ e.name
+      else "bad-op"
+    | _, _, _ => "bad-op"
+  | ["gis", a] =>
+    match vTok a with
+    | some a => showPy PyU.vShow (iter_settings (fuelOf a) a)
+    | none => "bad-op"
+  | ["gsm", d, r, it, p, q] =>
+    match bytesTok d, natsTok r, vTok it, vTok p, vTok q with
+    | some d, some r, some it, some p, some q =>
+      match beacon_config_init (gFuel d) (.bytes d) with
+      | .ok cfg => gShowMap false (settings_map (C02Gen.callX (stub r)) cfg it p q)
+      | .error e => "exc " ++ e.name
+    | _, _, _, _, _ => "bad-op"
+  | "pyu" :: rest => pyuStep rest
+  | _ => "bad-op"
+
+end Gen
+
 def step : List String → String
   | ["parse", d] =>
     match bytesTok d with
@@ -115,6 +308,6 @@ def step : List String → String
       | .ok ss => allMaps true [] ss
       | .error e => "exc " ++ e.name
     | none => "bad-op"
-  | _ => "bad-op"
+  | ws => gstep ws
 
 end C02
